@@ -255,6 +255,8 @@ def WriteShard(ra, cases, path, per_source=None):
       line['pd'] = c['pd']
     if c['k'] == 'field':
       line['f'] = c['f']
+    if c['k'] == 'pair':
+      line['x'] = 0 if c.get('in_lemma_universe') else 1
     lines.append(line)
   with open(path, 'w') as f:
     f.write(json.dumps({'terms': tab.terms}, separators=(',', ':')) + '\n')
@@ -344,7 +346,8 @@ def PairSource(uname, terms, all_styles=False, ordered=True):
       styles = STYLES if all_styles and (i + j) % 7 == 0 else (StyleOf(i, j),)
       for st in styles:
         out.append({'id': '%s/pair/%d/%d/%s' % (uname, i, j, st), 'k': 'pair',
-                    'style': st, 'terms': [terms[i], terms[j]]})
+                    'style': st, 'in_lemma_universe': True,
+                    'terms': [terms[i], terms[j]]})
     return out
   return Get, len(index)
 
@@ -624,7 +627,7 @@ def Plan(tier, lem, rng):
                       ordered=thorough and small)
     plan[u + '_pairs'] = (g, n, 0, True)
     g, n, complete = Sampled(TripleSource(u, U3, None, both_vias=thorough),
-                             (40000 if small else 25000) if thorough else 4000,
+                             (40000 if small else 25000) if thorough else 3000,
                              rng)
     plan[u + '_triples'] = (g, n, 0, complete)
   W = lem['wide']['U']
@@ -641,7 +644,7 @@ def Plan(tier, lem, rng):
   plan['random_pairs'] = (g, n, 0, False)
   g, n = ListSource(RandomTriples(rng, 20000 if thorough else 1500, thorough))
   plan['random_triples'] = (g, n, 0, False)
-  g, n = ListSource(SharedCases(rng, 10000 if thorough else 1600))
+  g, n = ListSource(SharedCases(rng, 10000 if thorough else 1200))
   plan['shared'] = (g, n, 0, False)
   return plan
 
